@@ -86,6 +86,12 @@ def cases(tier, seed):
     d.update({"fields": ["temp", "density"], "seed": seed, "payload": ["coded", "signed"],
               "layout": [{"files": [[8, 0, 3], [1, 4, 7], [2, 5, 6]], "nums": [2, 0, 1]}, scope.layouts(2, 'idrev')[-1]]})
     out.append({"desc": d, "w": 40, "long": True})
+    # ONE level-0 box of 36 x 24 x 24 cells under three finer levels: replicated eight times in every direction it fills a grid of
+    # 288 x 192 x 192 cells (more than 2^23; 36 is no power of two)
+    d = {"ndims": 3, "domain": [36, 24, 24], "levels": [[[[0, 0, 0], [35, 23, 23]]], [[[2, 2, 2], [5, 5, 5]]], [[[6, 6, 6], [9, 9, 9]]], [[[14, 14, 14], [17, 17, 17]]]]}
+    d.update(geos[0])
+    d.update({"fields": ["temp"], "seed": seed, "payload": "coded", "layout": [None] * 4})
+    out.append({"desc": d, "w": 60, "big": True})
     # FAB header lines longer than 100 bytes (finest of 7 levels in the far corner, 12 fields): one field, the
     # finest grid only (1024 x 128 x 128), identity schedule
     d = dict(scope.deep_corner_mesh())
@@ -120,7 +126,7 @@ def run_case(case, workdir):
             sys.argv = old_
     k = 0
     deep = bool(case.get("deep"))
-    for limit in ([None, 1] if deep else [None] + list(range(ref.nlevels))):
+    for limit in ([None, 1] if deep else ([None, 2] if case.get("big") else [None] + list(range(ref.nlevels)))):
         L = ref.nlevels - 1 if limit is None else limit
         cov = None if deep else ref.covering(limit=L)
         for fi, field in enumerate(names):
@@ -129,7 +135,7 @@ def run_case(case, workdir):
             if deep:
                 one = ref.strain([field]).covering(limit=L)[..., 0]
             # (the VALUE of --dtype: NumPy's other spellings of the two types for the first field without a limit)
-            for dtype in (("float64", "float32") + (("float", "double", "single", "f4", "<f8") if (fi == 0 and limit is None and not deep) else ())):
+            for dtype in (("float32",) if case.get("big") else ("float64", "float32") + (("float", "double", "single", "f4", "<f8") if (fi == 0 and limit is None and not deep) else ())):
                 if deep and dtype != ("float32" if limit is None else "float64"):
                     continue
                 if fi > 0 and dtype == "float32" and limit is not None:
@@ -175,7 +181,7 @@ def run_case(case, workdir):
                     runs_ = explorer.explore(run, bound=0 if deep else 1)
                     if case.get("many"):
                         runs_ = [({"workers": nw_},) + run({}, nw_) for nw_ in (1, 3, 16)]
-                    if case.get("long"):
+                    if case.get("long") or case.get("big"):
                         runs_ = [({},) + run({})]
                     for plan, ctl, (st, val) in runs_:
                         sub = {"argv": argv, "plan": explorer.plan_json(plan) if "workers" not in plan else plan}
@@ -201,7 +207,7 @@ def run_case(case, workdir):
     # history: a run that FAILS part-way (a binary file of the finest level is not there yet - a plotfile still being copied), then
     # the same request again, and another field to the same output, once the plotfile is complete: whatever the failed run left
     # behind must not reach the later grids
-    if ref.nlevels >= 2 and not deep and not case.get("many") and not case.get("long"):
+    if ref.nlevels >= 2 and not deep and not case.get("many") and not case.get("long") and not case.get("big"):
         from ..refmodel import ParsedPlot
         lvdir = os.path.join(path, "%s%d" % (desc.get("levelprefix", "Level_"), ref.nlevels - 1))
         victim = sorted(set(ParsedPlot(path).levels[ref.nlevels - 1].files))[-1]        # (a file that the level header lists)
